@@ -300,8 +300,12 @@ impl GetType for ComparisonExpr {
         if self.lhs.map_each_count() > 0 {
             Type::Array(Type::Bool.into())
         } else if self.op == ComparisonOpExpr::IsTrue {
-            // Bool or Array(Bool)
-            self.lhs.get_type()
+            // Bool, or Array(Bool): a bare Array(Bool) or Map(Bool) value is
+            // compiled to the array of its boolean values
+            match self.lhs.get_type() {
+                Type::Bool => Type::Bool,
+                _ => Type::Array(Type::Bool.into()),
+            }
         } else {
             Type::Bool
         }
